@@ -160,6 +160,20 @@ class RefModel:
         return out
 
 
+def canonical(template):
+    """
+    The reference estimator spells damping / mindist as Python floats: damping=1, np.int64(1), np.float32(1) and 1.0 are
+    the same model, so whatever spelling the caller used the expected numbers are those of the float spelling.
+    """
+    import numbers
+
+    for name, value in list(template.get_params(deep=True).items()):
+        if name.split("__")[-1] in ("damping", "mindist") and value is not None and not isinstance(value, bool) \
+                and isinstance(value, (numbers.Real, np.generic)) and type(value) is not float:
+            template.set_params(**{name: float(value)})
+    return template
+
+
 def estimator_key(est):
     """Hashable description of class + parameters (arrays by digest)."""
     from .. import core
@@ -560,7 +574,7 @@ def install(tap, run):
         est, cv = a["estimator"], a["cv"]
         with warnings.catch_warnings():
             warnings.simplefilter("ignore")
-            template = sk_clone(est)
+            template = canonical(sk_clone(est))
         try:
             probe = tuple(np.array(np.ravel(np.asarray(c)), dtype="float64") for c in a["coordinates"])
         except Exception:  # noqa: BLE001
@@ -599,9 +613,20 @@ def install(tap, run):
             else:
                 run.count("unmonitored:cross_val_score_on_partly_registered_data")
             return
+        foreign_splits = None
         if cv is not None and not isinstance(cv, R.RecordingCV):
-            run.count("unmonitored:cross_val_score_with_foreign_cv")
-            return
+            # a bare scikit-learn / verde cross-validator: its splits are replayed here (twice: only a deterministic one can be judged)
+            want = np.transpose([ds.coordinates[0], ds.coordinates[1]])
+            try:
+                one = [(np.array(tr), np.array(te)) for tr, te in cv.split(want)]
+                two = [(np.array(tr), np.array(te)) for tr, te in cv.split(want)]
+            except Exception:  # noqa: BLE001
+                one, two = None, []
+            if one is None or len(one) != len(two) or any(not (np.array_equal(x[0], y[0]) and np.array_equal(x[1], y[1])) for x, y in zip(one, two)):
+                run.count("unmonitored:cross_val_score_with_non_deterministic_bare_cv")
+                return
+            run.count("cross_val_score:bare_cv_replayed")
+            foreign_splits = one
         if isinstance(cv, R.RecordingCV):
             calls = cv.calls[pre["cv_calls"]:]
             calls = [c for c in calls if c["thread"] == ev.thread]
@@ -628,7 +653,7 @@ def install(tap, run):
                 run.evaluated("cv_sees_rows_in_split_order")
             splits = calls[-1]["splits"]
         else:
-            splits = None
+            splits = foreign_splits
         ticket = Ticket(a["estimator"], pre["template"], ds, splits, a["scoring"], mode, ev.result, ev.parent is not None)
         ticket.snap = pre["snap"]
         ticket.probe = pre["probe"]
@@ -766,8 +791,9 @@ def judge_splinecv(run, ev):
                 return
             per_cand = [first for _ in cands]
     else:
-        if mode != "serial" or len(tickets) != len(cands) or any(t.splits is None for t in tickets):
-            run.count("unmonitored:SplineCV_default_cv_not_serial")
+        # default (cv=None) or bare cross-validator: the splits are those the nested cross_val_score calls were judged with
+        if mode == "client" or len(tickets) != len(cands) or any(t.splits is None for t in tickets):
+            run.count("unmonitored:SplineCV_without_proxy_cv_and_no_visible_nested_calls")
             return
         per_cand = [t.splits for t in tickets]
     # candidates reach cross_val_score in product order (serial / delayed: the nested calls are visible)
@@ -782,7 +808,9 @@ def judge_splinecv(run, ev):
     expected, tols, skip = [], [], None
     for (mindist, damping), splits in zip(cands, per_cand):
         def make(mindist=mindist, damping=damping):
-            return verde.Spline(mindist=mindist, damping=damping, engine=obj.engine, force_coords=obj.force_coords)
+            # the reference spells the candidate as Python floats (damping=1 and damping=1.0 are the same model)
+            return verde.Spline(mindist=float(mindist), damping=None if damping is None else float(damping), engine=obj.engine,
+                                force_coords=obj.force_coords)
 
         from .. import core
 
@@ -837,6 +865,25 @@ def judge_splinecv(run, ev):
                       dict(wit, expected=expected, candidates=[list(c) for c in cands], scores_=observed), key="splinecv-argmax")
     if len(cands) >= 2 and max(expected) - min(expected) > 10 * max(tols):
         run.mark_nontrivial("splinecv", ds.coordinates[0], ds.data[0], cands, repr(obj.scoring), weighted, mode, len(per_cand[0]))
+    # the final model carries the configured force_coords / engine
+    run.evaluated("splinecv_final_model_configuration")
+    final = obj.spline_
+    want_forces = tuple(np.ravel(np.asarray(c, dtype="float64")) for c in (obj.force_coords if obj.force_coords is not None else ds.coordinates[:2]))
+    try:
+        got_forces = tuple(np.ravel(np.asarray(c, dtype="float64")) for c in final.force_coords_[:2])
+        n_force = int(np.size(final.force_))
+    except Exception:  # noqa: BLE001
+        got_forces, n_force = (), -1
+    problems = []
+    if len(got_forces) != 2 or any(g.shape != w.shape or not np.array_equal(g, w) for g, w in zip(got_forces, want_forces)):
+        problems.append("force_coords_ of the final spline are not the %s" % ("configured force_coords" if obj.force_coords is not None else "data coordinates"))
+    if n_force != want_forces[0].size:
+        problems.append("force_ has %d entries for %d forces" % (n_force, want_forces[0].size))
+    if getattr(final, "engine", None) != obj.engine:
+        problems.append("engine of the final spline is %r, configured %r" % (getattr(final, "engine", None), obj.engine))
+    if problems:
+        run.violation("splinecv_final_model_configuration", "; ".join(problems), dict(wit, force_coords=None if obj.force_coords is None else list(obj.force_coords),
+                                                                                     engine=obj.engine), key="splinecv-final-config")
     # predictions = ordinary Spline with the selected parameters fitted to all the data
     c_all, d_all, w_all = ds.take(np.arange(ds.size))
     mid = tuple(0.5 * (c[:-1] + c[1:]) for c in c_all[:2])
@@ -851,7 +898,7 @@ def judge_splinecv(run, ev):
             fc = obj.force_coords
             if fc is None and trial > 0:
                 fc = tuple(x.copy() for x in c_all[:2])  # same forces, only the data rows reordered
-            spl = verde.Spline(mindist=chosen[0], damping=chosen[1], engine=obj.engine, force_coords=fc)
+            spl = verde.Spline(mindist=float(chosen[0]), damping=None if chosen[1] is None else float(chosen[1]), engine=obj.engine, force_coords=fc)
             spl.fit(c, d[0], None if w is None else w[0])
             preds.append(np.asarray(spl.predict(probe), dtype="float64"))
         got = np.asarray(obj.predict(probe), dtype="float64")
